@@ -616,6 +616,15 @@ pub fn update_msk(
     msk: &mut MasterSecretKey,
     rights: HashMap<Right, (EncryptionHint, AttributeStatus)>,
 ) -> Result<(), Error> {
+    // Validate before touching the MSK: a failed update must leave it as it was.
+    if rights.iter().any(|(r, (_, status))| {
+        AttributeStatus::DecryptOnly == *status && !msk.secrets.contains_key(r)
+    }) {
+        return Err(Error::OperationNotPermitted(
+            "cannot add decrypt only secret".to_string(),
+        ));
+    }
+
     let mut secrets = take(&mut msk.secrets);
     secrets.retain(|r| rights.contains_key(r));
 
